@@ -6,7 +6,7 @@
      irreps    : dimensions (and integer characters where all characters are rational) of the irreducible blocks
      pcount    : get_sym_group_num_irrep(N)
      partitions: get_sym_group_young_diagram(N)
-     hook      : get_hook_length(shape)
+     hook      : get_hook_length(shape)          hookbig : the same for hooks and two-row shapes of up to 33 boxes
      tableau   : one array returned by get_all_young_tableaux(shape) *)
 EXTENDS Constructions, Partition, Young, Sets, Json, IOUtils
 Events == JsonDeserialize(IOEnv.TRACE_FILE)
@@ -41,6 +41,8 @@ Valid(e) ==
     [] e.op = "pcount" -> e.p = PT[e.N + 1]
     [] e.op = "partitions" -> \E S \in {Parts(e.N, e.N)} : Len(e.rows) = Cardinality(S) /\ {StripZeros(e.rows[i]) : i \in 1..Len(e.rows)} = S /\ Cardinality(S) = PT[e.N + 1]
     [] e.op = "hook" -> e.f = F(e.shape)
+    [] e.op = "hookbig" -> /\ SumSh(e.shape) <= 33 /\ (IsHookShape(e.shape) \/ Len(e.shape) = 2) /\ (SumSh(e.shape) <= 12 => FBig(e.shape) = F(e.shape))
+                           /\ e.f = FBig(e.shape)                                   \* up to 33 boxes: hooks and two-row shapes by closed forms
     [] e.op = "tableau" -> IsSYT(e.rows) /\ Shape(e.rows) = e.shape
     [] OTHER -> FALSE
 Verdict(i) == Valid(Events[i])
